@@ -79,6 +79,7 @@ type input struct {
 	MaxElapMs int     `json:"maxelap"`            // forwarder max-request-elapsed-time in ms (0 = 1ns: no retries)
 	Slots     int     `json:"slots"`              // consolidator slots = parsers
 	Compress  bool    `json:"compress"`
+	DynHdr    bool    `json:"dynhdr,omitempty"` // opt-in demonstration (never generated): http-transport.dynamic-headers = [region]
 	Stream    string  `json:"stream"`
 }
 
@@ -279,6 +280,9 @@ func runScenario(in input) (res result) {
 		if s.lat > 0 {
 			time.Sleep(time.Duration(s.lat) * time.Millisecond)
 		}
+		if in.DynHdr && len(ids) > 0 && ids[0]%2 == 1 {
+			time.Sleep(60 * time.Millisecond) // the split carrying the odd datapoints is slower
+		}
 		ok := att > s.fails
 		lg.add(ev{K: "upresp", D: ids, Ok: ok})
 		switch {
@@ -351,7 +355,10 @@ func runScenario(in input) (res result) {
 		w.WriteHeader(http.StatusAccepted)
 	})
 	mux.HandleFunc("/2020-01-01/extension/exit/error", func(w http.ResponseWriter, r *http.Request) {
-		io.Copy(io.Discard, r.Body)
+		b, _ := io.ReadAll(r.Body)
+		if os.Getenv("C20_DEBUG") != "" {
+			fmt.Fprintln(os.Stderr, "exit error:", string(b)[:min(len(b), 600)])
+		}
 		lg.add(ev{K: "exiterror"})
 		w.WriteHeader(http.StatusAccepted)
 	})
@@ -391,12 +398,19 @@ func runScenario(in input) (res result) {
 		slots = 1
 	}
 	v := viper.New()
-	v.Set("http-transport", map[string]interface{}{
+	ht := map[string]interface{}{
 		"api-endpoint":             endpoint,
 		"consolidator-slots":       slots,
 		"compress":                 in.Compress,
 		"max-request-elapsed-time": maxElapsed,
-	})
+	}
+	if in.DynHdr {
+		ht["dynamic-headers"] = []string{"region"}
+	}
+	v.Set("http-transport", ht)
+	if in.DynHdr {
+		v.Set("dynamic-header", []string{}) // what cmd/lambda-extension/main.go NewServer does to "disable" them
+	}
 	quiet := logrus.New()
 	quiet.SetOutput(io.Discard)
 	quiet.SetFormatter(nullFormatter{})
@@ -468,6 +482,12 @@ func runScenario(in input) (res result) {
 			time.Sleep(2 * time.Millisecond)
 		}
 	}
+	line := func(d int) string {
+		if in.DynHdr {
+			return dpName(d) + ":1|c|#region:r" + strconv.Itoa(d%2)
+		}
+		return dpName(d) + ":1|c"
+	}
 	send := func(ids []int, multi bool) {
 		if conn == nil && !dial() {
 			mon("statsd socket never appeared")
@@ -479,12 +499,12 @@ func runScenario(in input) (res result) {
 		if multi {
 			var b strings.Builder
 			for _, d := range ids {
-				fmt.Fprintf(&b, "%s:1|c\n", dpName(d))
+				b.WriteString(line(d) + "\n")
 			}
 			conn.Write([]byte(b.String()))
 		} else {
 			for _, d := range ids {
-				conn.Write([]byte(dpName(d) + ":1|c"))
+				conn.Write([]byte(line(d)))
 			}
 		}
 		sent += len(ids)
@@ -607,7 +627,7 @@ func runScenario(in input) (res result) {
 	case <-time.After(waitLimit):
 		mon("fake runtime: nobody waiting in GET /next for the shutdown event")
 	}
-	time.Sleep(3 * time.Millisecond)
+	time.Sleep(20 * time.Millisecond)
 	finish(false)
 	return
 }
@@ -763,9 +783,8 @@ func runOne(in input) hlib.Case {
 		case "upbad":
 			mons = append(mons, "upstream received an undecodable /v2/raw body")
 		case "exiterror":
-			if in.Mode == "run" {
-				mons = append(mons, "extension reported an exit error")
-			}
+			// shutdown is outside the property (and the script cancels the context right after the
+			// SHUTDOWN answer, which may interrupt the heartbeat's last request): logged, not judged
 		}
 	}
 	mons = append(mons, orderingMonitor(in, r.log)...)
